@@ -539,7 +539,9 @@ func (x *fx) loopHead(li *loopInfo, b *ssa.BasicBlock, st *State, reach Term, pr
 		if err != nil {
 			continue
 		}
+		e.curGroup = groupOf(iv.props)
 		e.assume(implies(reach, t))
+		e.curGroup = ""
 	}
 	if x.fc != nil {
 		if lc := x.fc.Loops[li.ordinal]; lc != nil {
